@@ -219,6 +219,13 @@ func (c04Sim) Run(e *Env, ci interface{}) {
 				e.Note("outcome/" + got.String())
 				continue
 			}
+			// Points() is asked first, on the fresh result: the i-th value belongs
+			// to instant from+i*step whatever was called on the series before
+			pointsFirst := ts.Points()
+			if int64(len(pointsFirst)) != want.Count {
+				e.Violate(oracle, "%s: Points() of the fresh result has %d points, the contract says %d", desc, len(pointsFirst), want.Count)
+				return
+			}
 			if int64(ts.FromTime()) != want.From || int64(ts.UntilTime()) != want.Until || int64(ts.Step()) != want.Step || int64(len(ts.Values())) != want.Count {
 				e.Violate(oracle, "%s: got from=now-%d until=now-%d step=%d count=%d, the contract says from=now-%d until=now-%d step=%d count=%d (archive %d)",
 					desc, now-int64(ts.FromTime()), now-int64(ts.UntilTime()), ts.Step(), len(ts.Values()),
